@@ -79,7 +79,7 @@ COMMON_FAMS = ["ids_mixed_none", "ids_mixed_always", "ids_mixed_shallow", "confl
 PROPS = {
     "C01": {
         "jobs": jobs(STRUCT, ["plain"], 1500, 60000, variants=ALLV) + jobs(["nest2_mixed", "nest3", "conflict_ortho"], ["posts"], 800, 30000, variants=ALLV)
-                + rand_jobs("struct", ["plain", "posts"], 600, 8000),
+                + rand_jobs("struct", ["plain", "posts"], 600, 8000) + rand_jobs("evh", ["plain"], 0, 6000, nthorough=12),
         "nontrivial": ["multi_candidate"],
         "rule": "seeded plans (start + 4..16 events, an independent guard vector per event; half of the jobs add re-entrant posts) on the "
                 "generated machines, every variant in lockstep with the reference model; a run is non-trivial when at least one dispatch "
@@ -117,7 +117,8 @@ PROPS = {
     "C05": {
         "jobs": jobs(["defer_basic", "defer_action"], ["defer", "plain"], 1500, 60000, variants=ALLV)
                 + jobs(["defer_action"], ["defer_strict"], 300, 3000, variants=["B", "BC", "M", "MA", "MC"])
-                + jobs(["defer_cond"], ["defer", "plain", "queue"], 1500, 60000),
+                + jobs(["defer_cond"], ["defer", "plain", "queue"], 1500, 60000)
+                + rand_jobs("dfb", ["defer", "queue"], 600, 8000, nthorough=12) + rand_jobs("dfm", ["defer", "queue"], 600, 8000, nthorough=12),
         "nontrivial": ["deferred"],
         "rule": "event sequences over machines with deferring states / Defer actions, public defer_event, posts with the defer API; "
                 "non-trivial = a deferred occurrence was observed pending at a quiescent point; distinct = full-trace hash",
@@ -225,13 +226,15 @@ PROPS = {
     },
     "C17": {
         "jobs": jobs(["flags", "blocking", "nest_inactive", "nest3_deep"], ["lifecycle", "observe"], 800, 40000, variants=ALLV)
-                + jobs(["flags"], ["observe"], 500, 20000, variants=["B+p3", "M+p3"]),
+                + jobs(["flags"], ["observe"], 500, 20000, variants=["B+p3", "M+p3"])
+                + rand_jobs("struct", ["observe"], 600, 6000) + rand_jobs("hist", ["observe"], 0, 6000),
         "nontrivial": ["flag"],
         "rule": "is_flag_active<F>() and <F,AND> for every flag on every machine level after every op (and, through the observed active "
                 "ids, inside behaviours); non-trivial = some flag was active at some point of the run",
     },
     "C18": {
-        "jobs": jobs(["events_hier"], ["plain", "posts", "queue"], 1500, 60000),
+        "jobs": jobs(["events_hier"], ["plain", "posts", "queue"], 1500, 60000)
+                + rand_jobs("evh", ["plain", "posts", "queue"], 600, 8000, nthorough=12),
         "nontrivial": ["multi_candidate"],
         "rule": "events of a 3-level class hierarchy against exact / base / Kleene triggers competing in one state and across a sub-machine "
                 "boundary, submitted directly, queued and posted; behaviours record the static type, the dynamic type found in the Kleene "
